@@ -919,10 +919,15 @@ def unify_chunks_expr(*args, warn=True):
                 for n, j in enumerate(i)
             )
             if chunks != a.chunks and all(a.chunks):
-                # Skip rechunking known chunks to unknown - can't rechunk to nan sizes
-                target_has_nan = any(c is not None and np.isnan(sum(c)) for c in chunks)
+                # Known chunks can't be rechunked to nan sizes: a known operand
+                # keeps its own chunks on the axes whose unified layout is
+                # unknown, and is still aligned on the axes where it is known.
                 source_is_known = not any(np.isnan(sum(c)) for c in a.chunks)
-                if not (target_has_nan and source_is_known):
+                if source_is_known:
+                    chunks = tuple(
+                        a.chunks[n] if c is not None and np.isnan(sum(c)) else c for n, c in enumerate(chunks)
+                    )
+                if chunks != a.chunks:
                     a = a.rechunk(chunks)
                     changed = True
         arrays.append(a)
